@@ -687,10 +687,47 @@ def _report_val(chk, func, v: Val, what: str, sink: ast.AST) -> None:
         )
 
 
+def _r15d(chk, repo) -> None:
+    """CP01 crawls every segment that is_type("keyword") -- class types included -- and edits its raw.  A parser
+    that hands a quoted literal (`'GZIP'`) to KeywordSegment makes the rule re-case a string literal."""
+    from ..grammar import load_grammar
+
+    in_selftest = getattr(chk, "in_selftest", False)
+    g = load_grammar(repo, cache=not in_selftest)
+    n = 0
+    QUOTES = ("'", '"', "`", "[")
+    for name, dg in sorted(g.items()):
+        seen = set()
+        for node in dg.iter_nodes(family="parser"):
+            if node.get("raw_class") != "KeywordSegment" and node.get("raw_class_type") != "keyword":
+                continue
+            n += 1
+            ts = node.get("templates") or ([node.get("template")] if node.get("template") else [])
+            q = sorted(t for t in ts if isinstance(t, str) and t[:1] in QUOTES)
+            if not q:
+                continue
+            types = tuple(node.get("instance_types") or ())
+            key = (types, node.get("kind"))
+            if key in seen:
+                continue
+            seen.add(key)
+            chk.fail(
+                "R15d", None,
+                f"dialect '{name}': a {node.get('kind')} producing keyword segments (instance type {list(types)}) matches quoted text ({q[:3]}{' ..' if len(q) > 3 else ''}): "
+                "the capitalisation rules treat the whole token, quotes included, as a keyword and re-case a string literal",
+                detail=f"quoted text is not parsed as a keyword; dialect={name} type={'/'.join(types) or '-'}",
+                construct=f"src/sqlfluff/dialects/dialect_{name}.py", loc=(f"src/sqlfluff/dialects/dialect_{name}.py", 0),
+            )
+    chk.count("R15d.keyword_parsers", n)
+    chk.floor("R15d.keyword_parsers", 50 if not in_selftest else 1)
+
+
 def run(chk) -> None:
     chk.rule("R15a", "every fix of the capitalisation rules is replace(A, [A.edit(R)]) with R a case-homomorphic image of A.raw (abstract domain CASEMAP over reaching definitions, regex.sub with tiling capture groups)")
     chk.rule("R15b", "(evidence) crawler type sets and _exclude_* tuples of the CP rules are listed, not judged")
     repo = chk.repo
+    chk.rule("R15d", "no dialect lets a quoted string be a keyword: no StringParser / MultiStringParser / RegexParser that produces keyword segments (the class CP01 re-cases) has a template that starts with a quote character")
+    _r15d(chk, repo)
     mods, funcs, classes = _scope(chk)
     ctx = Ctx(chk, funcs, mods)
 
@@ -933,6 +970,12 @@ _CP05_SKIP_AND_CALL = _CP05_SKIP + "                res = self._handle_segment(s
 _WORD_RX = "\"([^a-zA-Z0-9]+|^)([a-zA-Z0-9])([a-zA-Z0-9]*)\""
 
 VARIANTS = [
+    Variant(
+        "quoted-warehouse-sizes-become-keywords", "src/sqlfluff/dialects/dialect_snowflake.py",
+        '            CodeSegment,\n            type="warehouse_size",\n        ),\n    ),\n',
+        '            KeywordSegment,\n            type="warehouse_size",\n        ),\n    ),\n',
+        "R15d", None, "seeded C15-6 (the quoted form only): `WAREHOUSE_SIZE = 'x-large'` is re-cased",
+    ),
     Variant(
         "lower-policy-casefolds", "src/sqlfluff/rules/capitalisation/CP01.py",
         "                fixed_raw = fixed_raw.lower()\n",
